@@ -45,6 +45,7 @@
 #include <inttypes.h>
 #include <ctype.h>
 #include <limits.h>
+#include <errno.h>
 
 intmax_t strtoimax(const char *restrict nptr, char **restrict endptr,
 		int base) {
@@ -125,6 +126,7 @@ intmax_t strtoimax(const char *restrict nptr, char **restrict endptr,
 
 	if (any < 0) {
 		acc = neg ? INTMAX_MIN : INTMAX_MAX;
+		errno = ERANGE;
 	} else if (neg) {
 		acc = -acc;
 	}
